@@ -175,6 +175,9 @@ func CheckErrPropagatedOpt(fn *ssa.Function, call ssa.CallInstruction, eofHandle
 						return
 					}
 					slot := ResolvedResults(x)[errIdx]
+					if !aliases[slot] && errIdx < len(x.Results) && aliases[x.Results[errIdx]] {
+						slot = x.Results[errIdx] // `return fail(err)`: the forwarder's own result is what is returned
+					}
 					if aliases[slot] {
 						if d := deferActive(path, x); d != nil {
 							k := fmt.Sprint(d.Pos(), "clobber")
